@@ -228,6 +228,12 @@ func (t *wTx) Commit() error {
 	return err
 }
 func (t *wTx) Rollback() error {
-	_ = callHookFor(t.dsn, t.ctx, KRollback, "", false)
-	return t.inner.Rollback()
+	// (a hook error is reported AFTER the inner transaction was rolled back: the database is as
+	// if the rollback had succeeded, the caller sees it fail)
+	herr := callHookFor(t.dsn, t.ctx, KRollback, "", false)
+	err := t.inner.Rollback()
+	if herr != nil {
+		return herr
+	}
+	return err
 }
